@@ -181,7 +181,7 @@ Section Inv.
   }.
 
   Lemma faulty_lg e s s' : lg s = lg s' -> faulty e s = faulty e s'.
-  Proof. unfold faulty. intros ->. reflexivity. Qed.
+  Proof. unfold faulty, dead. intros ->. reflexivity. Qed.
 
   Lemma clean_seq_app a b s : clean_seq (a ++ b) s = clean_seq b (clean_seq a s).
   Proof. revert s; induction a as [|x a IH]; intros s; cbn [app clean_seq]; [reflexivity | apply IH]. Qed.
@@ -361,7 +361,7 @@ Section Inv.
             apply (f_equal (@length event)) in E'; cbn in E'; lia.
         + unfold do_stat in D. destruct (faulty _ _); injection D; intros <- _; cbn in E';
             apply (f_equal (@length event)) in E'; cbn in E'; lia.
-        + unfold do_delete in D. destruct (faulty _ _); [|destruct (efaulty _ _)]; injection D; intros <- _; cbn in E';
+        + unfold do_delete in D. destruct (faulty _ _); [|destruct (pfaulty _ _); [|destruct (efaulty _ _)]]; injection D; intros <- _; cbn in E';
             apply (f_equal (@length event)) in E'; cbn in E'; lia.
         + unfold do_store in D. destruct (faulty _ _); [|destruct (is_dir _ _); [|destruct (efaulty _ _)]]; injection D; intros <- _; cbn in E';
             apply (f_equal (@length event)) in E'; cbn in E'; lia.
